@@ -184,7 +184,7 @@ func (pm *poolMocks) faultFired() bool {
 
 func runPlan(res *vkit.Result, p Plan) {
 	marker := fmt.Errorf("verif-marker-%s-%s-%d", p.Component, p.Pos, p.Rep)
-	if p.Rep%3 == 2 && (p.Component == "provider" || p.Component == "aggregator") {
+	if p.Rep%3 == 2 && p.Component != "shot" && p.Component != "cancel" && p.Component != "none" {
 		// the component's own failure is a timeout of its own (a final upload, a flush): an error
 		// caused by context.DeadlineExceeded, which is not the cancellation of the run
 		marker = pkgerrors.WithMessage(context.DeadlineExceeded, marker.Error())
@@ -200,7 +200,11 @@ func runPlan(res *vkit.Result, p Plan) {
 	}
 	m := vkit.NewMetrics()
 	eng := engine.New(log, m, cfg)
-	ctx, cancel := context.WithCancel(context.Background())
+	// the caller's context has a deadline of its own, far in the future (an embedding program or a
+	// CI job would set one): a component's timeout error must not be taken for the run's
+	base, baseCancel := context.WithTimeout(context.Background(), time.Hour)
+	defer baseCancel()
+	ctx, cancel := context.WithCancel(base)
 	defer cancel()
 	cancelled := false
 	if p.Component == "cancel" {
